@@ -188,7 +188,15 @@ func ruleGenNames(c *Ctx) []Obligation {
 	// the template
 	var tmpl string
 	var tpos token.Pos
-	for _, ci := range a.calls() {
+	// the command may be built in getPackages itself or in a helper it calls
+	var cmdCalls []ssa.CallInstruction
+	cmdCalls = append(cmdCalls, a.calls()...)
+	for _, cal := range c.calleesWithin(gp, 2) {
+		if cal.Pkg == sp && cal.Blocks != nil {
+			cmdCalls = append(cmdCalls, c.FA(cal).calls()...)
+		}
+	}
+	for _, ci := range cmdCalls {
 		sc := ci.Common().StaticCallee()
 		if sc == nil || sc.String() != "os/exec.Command" {
 			continue
@@ -269,7 +277,8 @@ func ruleGenNames(c *Ctx) []Obligation {
 	o.req(vok && okNM && vi == nm, fn, "the table value is the Name field", upd.Pos(), "value comes from parts[%d] (resolved %v); template field order %v", vi, vok, fields)
 	// hints(): d[Lit(path)] = Lit(name) over the ranged table
 	okEmit := false
-	for _, an := range hf.AnonFuncs {
+	// … in a function literal handed to DictFunc, or in hints itself filling a Dict it has made
+	for _, an := range append([]*ssa.Function{hf}, hf.AnonFuncs...) {
 		aa := c.FA(an)
 		for _, ml := range mapLoops(an) {
 			for b := range ml.blocks {
